@@ -252,7 +252,7 @@ func c14(c *wk.Ctx) {
 	}
 	idx := 0
 	var cases []c14case
-	n := c.Pick(12, 300)
+	n := c.Pick(24, 400)
 	for k := 0; k < n; k++ {
 		if c.Mine(idx) {
 			r := c.Rand(idx)
